@@ -41,6 +41,9 @@ API (stable; other drivers import it)
     * ``led.n``: number of counted calls so far; ``led.fired``: indexes whose fault fired.
     * ``led.enabled``: set False (or use ``with led.paused():``) around harness set-up /
       observation so those calls are neither counted nor faulted.
+    * ``led.outage(True)`` -- "the database server is down": every open proxy connection dies at once (as a ``disc``
+      fault would kill it) and, until ``led.outage(False)``, every ``connect()`` fails with the disconnect-class
+      error (logged with ``fault="disc"`` so that drivers see it like an injected one).  ``led.down`` tells.
     * ``led.open_ids()``, ``led.cid_of(obj)`` (accepts proxy connections, pool fairies,
       ``Connection`` objects), ``led.close_all()`` (harness clean-up: really closes everything).
 
@@ -134,7 +137,15 @@ class Ledger:
         self.conns = {}
         self.fired = []
         self.enabled = True
+        self.down = False
         self._next_cid = 0
+
+    def outage(self, on):
+        self.down = bool(on)
+        if on:
+            for ci in self.conns.values():
+                if ci.open and not ci.dead and ci.obj is not None:
+                    ci.obj._vf_kill()
 
     # ---- bookkeeping
     def new_conn(self):
@@ -161,6 +172,8 @@ class Ledger:
         idx = self.n
         self.n += 1
         fault = self.plan.get(idx)
+        if fault is None and self.down and kind == "connect":
+            fault = "disc"
         if fault is not None and not isinstance(fault, str):
             fault = tuple(fault) if isinstance(fault, list) else fault
         self.log.append(Call(idx, None if ci is None else ci.cid, kind, info, fault, bool(ci is not None and ci.dead)))
